@@ -70,6 +70,9 @@ struct State {
     /// run list, segment list) get a higher switch probability than hot ones (pager)
     lock_uses: BTreeMap<usize, u32>,
     boost: bool,
+    /// the bias towards switching at rare events is on in half of the runs (long undisturbed
+    /// stretches of one thread are needed by other interleavings)
+    boost_enabled: bool,
     /// this run's RwLock policy: like std's futex RwLock on Linux, no new reader is admitted
     /// while a writer waits (a second read lock on the same thread then deadlocks behind it)
     writer_pref: bool,
@@ -121,6 +124,7 @@ impl Sched {
                 want_write: BTreeMap::new(),
                 lock_uses: BTreeMap::new(),
                 boost: false,
+                boost_enabled: Rng::new(seed, "rare-event-bias").below(2) == 0,
                 writer_pref: Rng::new(seed, "rwlock-policy").below(4) != 0,
             }),
             cv: Condvar::new(),
@@ -308,6 +312,16 @@ impl Sched {
         SIM_TID.with(|c| c.get())
     }
 
+    /// A scheduling point at a rare event (file created / renamed / removed): switch with
+    /// raised probability in the runs that have the bias on.
+    pub fn yield_point_rare(&self, what: &'static str) {
+        if Self::tid().is_some() {
+            let mut st = self.st.lock().unwrap();
+            st.boost = st.boost_enabled;
+        }
+        self.yield_point(what);
+    }
+
     /// A scheduling point of the current simulated thread.
     pub fn yield_point(&self, what: &'static str) {
         let Some(tid) = Self::tid() else { return };
@@ -350,7 +364,8 @@ impl Sched {
             if matches!(kind, SyncKind::MutexLock | SyncKind::RwRead | SyncKind::RwWrite) {
                 let n = st.lock_uses.entry(addr).or_default();
                 *n += 1;
-                st.boost = *n <= 12;
+                let few = *n <= 12;
+                st.boost = st.boost_enabled && few;
             }
         }
         let what = match kind {
